@@ -487,6 +487,41 @@ def finish_program(rng, phases):
     return dict(phases=phases, sections=sections)
 
 
+def assert_safe(prog):
+    """every file a generated program creates lies under the sandbox: a symbol used as the FIRST component of the
+    target of `file` / `dir` must not be able to be empty or absolute (a string whose value starts with a letter)"""
+    import re
+    defs = {}
+    for ph in PHASES:
+        for ins in prog['phases'][ph]:
+            if ins['kind'] == 'def':
+                defs.setdefault(ins['name'], ins)
+
+    def first_char(name, depth=0):
+        ins = defs.get(name)
+        if ins is None or depth > 8:
+            return None
+        v = ins['val']
+        if v[0] == 'str':
+            for f in v[1]:
+                if f[0] == 'c' and f[1]:
+                    return f[1][0]
+                if f[0] == 's':
+                    return first_char(f[1], depth + 1)
+            return None
+        if v[0] in ('lst', 'other'):
+            return 'x'  # rejected by the path-or-string restriction; never a file target
+        return 'x'  # a path: its relativity is validated (never absolute for a file target)
+
+    for ph in PHASES:
+        for ins in prog['phases'][ph]:
+            m = re.match(r'(file|dir|copy)\s+"?@\[(\w+)\]@', ins['src'])
+            if m:
+                c = first_char(m.group(2))
+                if m.group(2) in defs and (c is None or not c.isalpha()):
+                    raise RuntimeError('unsafe generated program (file target could leave the sandbox): ' + ins['src'])
+
+
 def program_text(prog):
     """-> (text, {line number: (phase, index in phase)})"""
     lines, where = [], {}
@@ -609,6 +644,136 @@ def systematic_programs(rng, quick):
                 if not phases['act'] and (ph != 'act') and rng.chance(0.3):
                     phases['act'] = [dict(kind='use', src='probe.sh', vals=[('lst', [])], act=True)]
                 progs.append(finish_program(rng, phases))
+    return progs
+
+
+# ---------------------------------------------------------------------------------------------
+# (T) the type-compatibility matrix, tabulated from the live restriction objects
+# ---------------------------------------------------------------------------------------------
+def gen_tables(ctx):
+    """For every context (the restriction object the real parser attaches to a reference standing there) and every
+    kind of definition (13 types; paths of every relativity and absolute) ask the LIVE restriction whether it is
+    satisfied by the LIVE container of a constant definition.  Written to coq/Gen/C08_types.v; Props/C08.v proves
+    that the model's [restr_sat] and the specification's [restr_ok] give the same answers."""
+    from exactly_lib.util.symbol_table import SymbolTable
+    base = tempfile.mkdtemp(prefix='c08t-', dir=ctx.work)
+    try:
+        home = os.path.join(base, 'home')
+        os.makedirs(home)
+        with open(os.path.join(home, 'probe.sh'), 'w') as f:
+            f.write('#!/bin/sh\n')
+        os.chmod(os.path.join(home, 'probe.sh'), 0o755)
+        live = Live(home)
+        nm = Namer(live)
+        rng = common.Rng(1)
+        case = os.path.join(home, 't.case')
+        # contexts -> restriction objects
+        restrs = []
+        for cx in CONTEXTS:
+            ph, use = context_use(cx, 'X0', 0)
+            prog = finish_program(rng, {p: ([use] if p == ph else []) for p in PHASES})
+            text, _ = program_text(prog)
+            parsed = live.parse(case, text)
+            usages = parsed[ph][0][1]
+            refs = []
+            for u in usages:
+                refs += list(u.references) if hasattr(u, 'symbol_container') else [u]
+            refs = [r for r in refs if r.name == 'X0']
+            if not refs:
+                raise RuntimeError('context %s: no reference to X0 reported' % cx)
+            restrs.append((cx, refs[0].restrictions))
+        # definitions -> live containers + model terms
+        defs = []
+        for tid in TYPE_IDS:
+            variants = range(6) if tid == 'path' else [0]
+            for k in variants:
+                d = const_def(tid, 'X0', k)
+                defs.append((tid + (':' + REL_ORDER[k % 6] if tid == 'path' else ''), d))
+        defs.append(('path:absolute', dict(kind='def', name='X0', tid='path', src='def path X0 = /abs/x', val=('pconst', None, '/abs/x'))))
+        rows = []
+        for label, d in defs:
+            prog = finish_program(rng, {p: ([d] if p == 'setup' else []) for p in PHASES})
+            text, _ = program_text(prog)
+            parsed = live.parse(case, text)
+            definition = parsed['setup'][0][1][0]
+            container = definition.symbol_container
+            term = instr_term(d, parsed['setup'][0][1], live, nm)  # (IDef n (Cont ..))
+            cont = term[term.index('(Cont'):-1]
+            table = SymbolTable({'X0': container})
+            for cx, r in restrs:
+                ok = r.is_satisfied_by(table, 'X0', container) is None
+                rows.append('(%s, %s, %s)' % (restr_term(r), cont, cbool(ok)))
+        txt = ('(* GENERATED on every run by harness/c08.py from the live restriction objects of /repo/src. Do not edit.\n'
+               '   contexts: %s\n   definitions: %s *)\n' % (', '.join(CONTEXTS), ', '.join(l for l, _ in defs)) +
+               'From Coq Require Import NArith List Bool.\nFrom Exactly Require Import Model.Symbols.\nImport ListNotations.\n\n'
+               'Definition gen_type_matrix : list (restr * container * bool) :=\n  %s.\n' % clist(rows, None).replace('); (', ');\n   ('))
+        common.write_if_changed(os.path.join(common.COQ, 'Gen', 'C08_types.v'), txt)
+    finally:
+        shutil.rmtree(base, ignore_errors=True)
+
+
+def special_programs(rng):
+    """self references, mutual forward references, duplicate definitions in every pair of phases (builtins included)"""
+    progs = []
+    non_act = [p for p in PHASES if p != 'act']
+
+    def one(phases_map):
+        phases = {p: [] for p in PHASES}
+        for p, lst in phases_map.items():
+            phases[p] = lst
+        progs.append(finish_program(rng, phases))
+
+    selfs = [dict(kind='def', name='X', tid='string', src='def string X = "a@[X]@"', val=('str', [('c', 'a'), ('s', 'X')])),
+             dict(kind='def', name='X', tid='list', src='def list X = a @[X]@', val=('lst', [('e', [('c', 'a')]), ('r', 'X')])),
+             dict(kind='def', name='X', tid='path', src='def path X = @[X]@/a', val=('pref', 'X', [('c', '/a')], 'REL_CWD')),
+             dict(kind='def', name='X', tid='path', src='def path X = -rel X a', val=('prelsym', 'X', [('c', 'a')])),
+             dict(kind='def', name='X', tid='path', src='def path X = -rel-act @[X]@', val=('prelopt', 'REL_ACT', [('s', 'X')]))]
+    for tid, tmpls in sorted(LOGIC_TEMPLATES.items()):
+        for t in tmpls:
+            if '{L:%s}' % tid in t:
+                txt = t.replace('{L:%s}' % tid, 'X')
+                if '{' in txt.replace('{ ', '').replace(' }', ''):
+                    continue
+                selfs.append(dict(kind='def', name='X', tid=tid, src='def %s X = %s' % (tid, txt), val=('other', ['X'])))
+    import copy
+    for d in selfs:
+        for ph in non_act:
+            one({ph: [copy.deepcopy(d)]})
+            # ... and with a later use of the symbol
+            fr = [('s', 'X')]
+            if d['tid'] in ('string', 'list', 'path'):
+                one({ph: [copy.deepcopy(d)], 'cleanup': ([copy.deepcopy(d)] if False else []) +
+                     [dict(kind='use', src='file {FILE} = %s' % frags_src(fr), vals=[('str', fr)], file=True)]}
+                    if ph != 'cleanup' else
+                    {ph: [copy.deepcopy(d), dict(kind='use', src='file {FILE} = %s' % frags_src(fr), vals=[('str', fr)], file=True)]})
+    # mutual forward reference
+    for p1 in non_act:
+        for p2 in non_act:
+            if PHASES.index(p1) <= PHASES.index(p2):
+                a = dict(kind='def', name='A', tid='string', src='def string A = "@[B]@"', val=('str', [('s', 'B')]))
+                b = dict(kind='def', name='B', tid='string', src='def string B = "b"', val=('str', [('c', 'b')]))
+                if p1 == p2:
+                    one({p1: [a, b]})
+                    one({p1: [b, a]})
+                else:
+                    one({p1: [a], p2: [b]})
+                    one({p1: [b], p2: [a]})
+    # duplicates: same name defined in two phases (all pairs), same or different type; builtin names
+    k = 0
+    for p1 in non_act:
+        for p2 in non_act:
+            if PHASES.index(p1) <= PHASES.index(p2):
+                for name in ('D', 'TAB', 'EXACTLY_ACT'):
+                    k += 1
+                    t1, t2 = TYPE_IDS[k % len(TYPE_IDS)], TYPE_IDS[(k * 5 + 1) % len(TYPE_IDS)]
+                    d1, d2 = const_def(t1, name, k), const_def(t2, name, k + 1)
+                    if name == 'D':
+                        if p1 == p2:
+                            one({p1: [d1, d2]})
+                        else:
+                            one({p1: [d1], p2: [d2]})
+                    else:
+                        one({p1: [d1]} if p1 == p2 else {p1: [const_def('string', 'Q', k)], p2: [d2]})
     return progs
 
 
@@ -773,6 +938,7 @@ class Runner:
         return s.replace(self.home, '/HOME')
 
     def run(self, prog):
+        assert_safe(prog)
         text, where = program_text(prog)
         with open(self.case, 'w') as f:
             f.write(text)
@@ -931,6 +1097,14 @@ CORPUS = [
      'assert': [dict(kind='stop', hard=False, src='exit-code != 0'),
                 dict(kind='def', name='X', tid='string', src='def string X = "a"', val=('str', [('c', 'a')]))],
      'cleanup': [dict(kind='use', src='file {FILE} = "@[X]@"', vals=[('str', [('s', 'X')])], file=True)]},
+    # FIX-C08-1 (repaired in /repo, 88ac72e): a REGEX operand that references a path of the home directory structure
+    {'setup': [dict(kind='def', name='E', tid='string', src='def string E = "a@[EXACTLY_ACT_HOME]@"',
+                    val=('str', [('c', 'a'), ('s', 'EXACTLY_ACT_HOME')])),
+               dict(kind='def', name='T', tid='text-transformer', src='def text-transformer T = replace @[E]@ b', val=('other', ['E'])),
+               dict(kind='use', src='file u1.txt = "ab" -transformed-by T', vals=[], names=['T']),
+               dict(kind='def', name='M', tid='text-matcher', src='def text-matcher M = matches @[E]@', val=('other', ['E'])),
+               dict(kind='use', src='file u2.txt = "ab" -transformed-by filter contents M', vals=[], names=['M'])],
+     'act': [], 'before-assert': [], 'assert': [], 'cleanup': []},
 ]
 
 
@@ -948,7 +1122,8 @@ def _run(ctx, res, rng, runner, programs):
     res.rule = ('generated test-case files: 2-10 def/reference instructions over all 13 value types in monotone phases, '
                 'sections in shuffled file order / split, symbols chosen 70% well-typed earlier, 10% builtin, 10% any earlier, '
                 '10% from the pool (later/undefined), duplicates 14%, failing instruction 4%; + systematic stream: every '
-                '(defined type, context) pair through 0-3 indirect steps. non-trivial := the case is rejected '
+                '(defined type, context) pair through 0-3 indirect steps; self references, mutual forward references and '
+                'duplicate definitions (builtin names included) in every pair of phases. non-trivial := the case is rejected '
                 '(VALIDATION_ERROR) or some reference names a definition that itself has references; distinct := '
                 'distinct file text')
     if programs is None:
@@ -957,6 +1132,7 @@ def _run(ctx, res, rng, runner, programs):
         for c in CORPUS:
             programs.append(finish_program(common.Rng(1), copy.deepcopy(c)))
         programs += systematic_programs(rng, ctx.quick)
+        programs += special_programs(rng)
         programs += [gen_program(rng, runner.live, ctx.quick) for _ in range(n_random)]
     terms, kept = [], []
     for prog in programs:
@@ -997,6 +1173,19 @@ def _run(ctx, res, rng, runner, programs):
     for i in cb:
         prog, text, o, cj = kept[i]
         res.disagreements.append(Failure('correspondence', cj, 'Model/Symbols.v (sym_execute) and the implementation differ'))
+
+
+def search(ctx, res):
+    """failing-input search: a larger random batch from a fresh stream of the same generator"""
+    res2 = common.Result()
+    runner = Runner(ctx.work)
+    try:
+        rng = common.Rng(ctx.seed * 7919 + 13)
+        progs = systematic_programs(rng, False) + special_programs(rng) + [gen_program(rng, runner.live, False) for _ in range(6000)]
+        _run(ctx, res2, rng, runner, progs)
+    finally:
+        runner.close()
+    return res2.prop_failures
 
 
 def replay(ctx, payload):
